@@ -15,6 +15,7 @@ mod c08;
 mod c09;
 mod c10;
 mod c11;
+mod c13;
 mod c14;
 mod c15;
 mod c17;
@@ -49,6 +50,14 @@ fn main() {
                     Some("quick") => Tier::Quick,
                     _ => common::machinery("bad --tier"),
                 };
+            }
+            "--worker" => {
+                i += 1;
+                let a = args.get(i).unwrap_or_else(|| common::machinery("--worker needs an argument"));
+                std::process::exit(match id.as_str() {
+                    "C13" => c13::worker(a),
+                    _ => common::machinery("no worker mode for this property"),
+                });
             }
             "--replay" => {
                 i += 1;
@@ -85,6 +94,7 @@ fn main() {
         "C09" => c09::run(&run),
         "C10" => c10::run(&run),
         "C11" => c11::run(&run),
+        "C13" => c13::run(&run),
         "C14" => c14::run(&run),
         "C15" => c15::run(&run),
         "C17" => c17::run(&run),
